@@ -43,3 +43,24 @@ void harness(void) { VL_CALL(KSI_VerificationRule_AggregationHashChainIndexConti
 	if (res == KSI_OK && result->resultCode == KSI_VER_RES_FAIL && g_vi_calls > 0) REACH("FAIL INT-12 on an index element");
 }
 #endif
+#ifdef VL_MODE_RFCTIME
+void harness(void) { KSI_CTX *ctx; const KSI_Signature *sig; int res;
+	vr_world_init(); ctx = VR_OPT(VR_CTX); sig = VR_OPT(&g_vr_sig);
+	res = rfc3161_verifyAggrTime(ctx, sig);
+	REACH("returned");
+	if (res == KSI_OK && sig != NULL && sig->rfc3161 != NULL) REACH("times equal");
+	if (res == KSI_VERIFICATION_FAILURE) REACH("times differ");
+	if (res != KSI_OK && res != KSI_VERIFICATION_FAILURE && ctx != NULL && sig != NULL) REACH("no first chain");
+}
+#endif
+#ifdef VL_MODE_RFCIDX
+void harness(void) { KSI_CTX *ctx; const KSI_Signature *sig; int res;
+	ri_world_init(); ctx = VR_OPT(VR_CTX); sig = VR_OPT(&g_vr_sig);
+	res = rfc3161_verifyChainIndex(ctx, sig);
+	REACH("returned");
+	if (res == KSI_OK && sig != NULL && sig->rfc3161 != NULL && g_ri_calls > 2) REACH("indices equal, more than two elements");
+	if (res == KSI_VERIFICATION_FAILURE && g_ri_len[0] != g_ri_len[1]) REACH("lengths differ");
+	if (res == KSI_VERIFICATION_FAILURE && g_ri_mismatch && g_ri_calls > 2) REACH("an element differs");
+	if (res != KSI_OK && res != KSI_VERIFICATION_FAILURE && ctx != NULL && sig != NULL) REACH("no first chain");
+}
+#endif
